@@ -76,10 +76,12 @@ class Rule_CP05(Rule_CP01):
         ):
             for seg in context.segment.segments:
                 # We don't want to edit symbols, quoted things or identifiers
-                # if they appear.
-                if seg.is_type(
-                    "symbol", "identifier", "quoted_literal"
-                ) or not seg.is_type("raw"):
+                # if they appear, nor any comments or whitespace within the type.
+                if (
+                    seg.is_type("symbol", "identifier", "quoted_literal")
+                    or not seg.is_type("raw")
+                    or not seg.is_code
+                ):
                     continue
                 res = self._handle_segment(seg, context)
                 if res:
